@@ -5,6 +5,7 @@ package fds
 import (
 	"fmt"
 	"net"
+	"net/netip"
 	"os"
 	"path/filepath"
 	"runtime"
@@ -590,6 +591,7 @@ type closable struct {
 	name   string
 	close  func() error
 	fd     int
+	more   []int // further descriptors the object owns (an IO owns its epoll descriptor and its eventfd)
 	closes int
 }
 
@@ -616,6 +618,12 @@ func TestC13_RepeatedClose(t *testing.T) {
 		defer os.RemoveAll(dir)
 		var objs []*closable
 		var trace []string
+		var atEnd []func()
+		defer func() {
+			for _, f := range atEnd {
+				f()
+			}
+		}()
 		reissued := false
 		closedNumbers := map[int]bool{}
 		create := func(kind string) {
@@ -670,6 +678,50 @@ func TestC13_RepeatedClose(t *testing.T) {
 					}
 					return tm.Close()
 				}, fd: fd}
+			case "io":
+				before := census()
+				io2, err := sonic.NewIO()
+				if err != nil {
+					rt.Fatalf("INFRA: NewIO: %v", err)
+				}
+				added, _ := sysx.CensusDiff(before, census())
+				var owned []int
+				for _, a := range added {
+					n := -1
+					fmt.Sscanf(a, "%d->", &n)
+					owned = append(owned, n)
+				}
+				if len(owned) == 0 {
+					rt.Fatalf("INFRA: NewIO added no descriptor")
+				}
+				c = &closable{name: kind, close: io2.Close, fd: owned[0], more: owned[1:]}
+			case "adapter":
+				fds, err := syscall.Socketpair(syscall.AF_UNIX, syscall.SOCK_STREAM|syscall.SOCK_CLOEXEC, 0)
+				if err != nil {
+					rt.Fatalf("INFRA: socketpair: %v", err)
+				}
+				peers = append(peers, fds[1])
+				f := os.NewFile(uintptr(fds[0]), "sp")
+				nc, err := net.FileConn(f)
+				_ = f.Close()
+				if err != nil {
+					rt.Fatalf("INFRA: FileConn: %v", err)
+				}
+				var ad *sonic.AsyncAdapter
+				sonic.NewAsyncAdapter(ioc, nc.(*net.UnixConn), nc, func(err error, a *sonic.AsyncAdapter) { ad = a })
+				if ad == nil {
+					rt.Fatalf("INFRA: NewAsyncAdapter")
+				}
+				afd := ad.RawFd()
+				c = &closable{name: kind, close: ad.Close, fd: afd}
+				// the net.Conn the adapter wraps believes it owns the same number: once the case is over, park /dev/null on the
+				// number if it is free and let the net.Conn close that, so that its finalizer cannot hit a stranger later
+				atEnd = append(atEnd, func() {
+					if !sysx.FdValid(afd) {
+						_ = syscall.Dup3(devNull, afd, syscall.O_CLOEXEC)
+					}
+					_ = nc.Close()
+				})
 			case "mirrored":
 				return
 			}
@@ -698,7 +750,7 @@ func TestC13_RepeatedClose(t *testing.T) {
 				if len(objs) > 12 {
 					rt.Skip("enough objects")
 				}
-				create(rapid.SampledFrom([]string{"conn", "listener", "packet", "peer", "file", "timer"}).Draw(rt, "kind"))
+				create(rapid.SampledFrom([]string{"conn", "listener", "packet", "peer", "file", "timer", "io", "adapter"}).Draw(rt, "kind"))
 			},
 			"close": func(rt *rapid.T) {
 				if len(objs) == 0 {
@@ -717,8 +769,19 @@ func TestC13_RepeatedClose(t *testing.T) {
 				_, removed := sysx.CensusDiff(before, after)
 				if o.closes == 1 {
 					closedNumbers[o.fd] = true
-					if len(removed) != 1 || !strings.HasPrefix(removed[0], fmt.Sprintf("%d->", o.fd)) {
-						rt.Fatalf("first Close of %s (fd %d) removed %v from the descriptor table, want exactly its own descriptor; trace=%v", o.name, o.fd, removed, trace)
+					owned := map[int]bool{o.fd: true}
+					for _, m := range o.more {
+						owned[m] = true
+						closedNumbers[m] = true
+					}
+					ok := len(removed) == len(owned)
+					for _, r := range removed {
+						n := -1
+						fmt.Sscanf(r, "%d->", &n)
+						ok = ok && owned[n]
+					}
+					if !ok {
+						rt.Fatalf("first Close of %s (owns %v %v) removed %v from the descriptor table, want exactly what it owns; trace=%v", o.name, o.fd, o.more, removed, trace)
 					}
 				} else if len(removed) != 0 {
 					rt.Fatalf("Close #%d of %s (its descriptor %d was released by the first Close) closed %v, which it does not own; trace=%v", o.closes, o.name, o.fd, removed, trace)
@@ -1043,5 +1106,182 @@ func TestC13_RepeatedCloseAndOrphan(t *testing.T) {
 			cls = append(cls, "orphan-reused-the-number")
 		}
 		rec.Case(fmt.Sprintf("co|%s|%d", kind, closes), reused, cls, map[string]any{"closed_kind": kind, "extra_closes": closes, "number_reused": reused})
+	})
+}
+
+// ---------------------------------------------------------------------------
+// (c) for the other kinds of object: packet conn, multicast peer, listener, adapter, FIFO, timer. Each helper builds the
+// object, starts an operation that cannot complete yet, and returns only what the harness needs to make it completable
+// and to release the descriptor afterwards - no reference to the object survives the call.
+
+type orphanHandle struct {
+	complete func() // makes the pending operation completable
+	fds      []int  // descriptors to release by number when the case is over
+	done     *int32 // callback invocations
+	final    *int32 // finalized sentinels
+	cleanup  []func()
+}
+
+//go:noinline
+func orphanOfKind(ioc *sonic.IO, kind string, dir string) (*orphanHandle, error) {
+	h := &orphanHandle{done: new(int32), final: new(int32)}
+	s := &sentinel{7}
+	fin := h.final
+	runtime.SetFinalizer(s, func(*sentinel) { atomic.AddInt32(fin, 1) })
+	done := h.done
+	switch kind {
+	case "packet":
+		pc, err := sonic.NewPacketConn(ioc, "udp", "127.0.0.1:0")
+		if err != nil {
+			return nil, err
+		}
+		_, port, _ := sysx.LocalAddr4(pc.RawFd())
+		h.fds = []int{pc.RawFd()}
+		pc.AsyncReadFrom(make([]byte, 16), func(error, int, net.Addr) { atomic.AddInt32(done, 1); runtime.KeepAlive(s) })
+		h.complete = func() { sendUDP(port) }
+	case "peer":
+		p, release, err := sysx.ClaimUDPPort()
+		if err != nil {
+			return nil, err
+		}
+		h.cleanup = append(h.cleanup, release)
+		mp, err := multicast.NewUDPPeer(ioc, "udp", fmt.Sprintf("127.0.0.1:%d", p))
+		if err != nil {
+			return nil, err
+		}
+		h.fds = []int{mp.NextLayer().RawFd()}
+		mp.AsyncRead(make([]byte, 16), func(error, int, netip.AddrPort) { atomic.AddInt32(done, 1); runtime.KeepAlive(s) })
+		h.complete = func() { sendUDP(p) }
+	case "listener":
+		l, err := sonic.Listen(ioc, "tcp", "127.0.0.1:0", sonicopts.Nonblocking(true))
+		if err != nil {
+			return nil, err
+		}
+		_, port, _ := sysx.LocalAddr4(l.RawFd())
+		h.fds = []int{l.RawFd()}
+		l.AsyncAccept(func(err error, c sonic.Conn) {
+			atomic.AddInt32(done, 1)
+			runtime.KeepAlive(s)
+			if c != nil {
+				_ = c.Close()
+			}
+		})
+		h.complete = func() {
+			if c, err := sysx.ConnectTCP(port); err == nil {
+				h.cleanup = append(h.cleanup, func() { sysx.Reset(c) })
+			}
+		}
+	case "adapter":
+		fds, err := syscall.Socketpair(syscall.AF_UNIX, syscall.SOCK_STREAM|syscall.SOCK_CLOEXEC, 0)
+		if err != nil {
+			return nil, err
+		}
+		f := os.NewFile(uintptr(fds[0]), "sp")
+		nc, err := net.FileConn(f)
+		_ = f.Close()
+		if err != nil {
+			return nil, err
+		}
+		var ad *sonic.AsyncAdapter
+		sonic.NewAsyncAdapter(ioc, nc.(*net.UnixConn), nc, func(err error, a *sonic.AsyncAdapter) { ad = a })
+		if ad == nil {
+			return nil, fmt.Errorf("NewAsyncAdapter failed")
+		}
+		ad.AsyncRead(make([]byte, 16), func(error, int) { atomic.AddInt32(done, 1); runtime.KeepAlive(s) })
+		peer := fds[1]
+		h.complete = func() { _, _ = syscall.Write(peer, []byte("x")) }
+		// the net.Conn is the harness's (the adapter only borrows its descriptor): it is closed at the end of the case
+		h.cleanup = append(h.cleanup, func() { _ = nc.Close(); _ = syscall.Close(peer) })
+	case "fifo":
+		path := filepath.Join(dir, "fifo")
+		if err := syscall.Mkfifo(path, 0o600); err != nil {
+			return nil, err
+		}
+		r, err := sonic.Open(ioc, path, os.O_RDONLY|syscall.O_NONBLOCK, 0)
+		if err != nil {
+			return nil, err
+		}
+		w, err := syscall.Open(path, syscall.O_WRONLY|syscall.O_NONBLOCK|syscall.O_CLOEXEC, 0)
+		if err != nil {
+			return nil, err
+		}
+		h.fds = []int{r.RawFd()}
+		r.AsyncRead(make([]byte, 16), func(error, int) { atomic.AddInt32(done, 1); runtime.KeepAlive(s) })
+		h.complete = func() { _, _ = syscall.Write(w, []byte("x")) }
+		h.cleanup = append(h.cleanup, func() { _ = syscall.Close(w) })
+	case "timer":
+		before := census()
+		tm, err := sonic.NewTimer(ioc)
+		if err != nil {
+			return nil, err
+		}
+		added, _ := sysx.CensusDiff(before, census())
+		for _, a := range added {
+			n := -1
+			fmt.Sscanf(a, "%d->", &n)
+			h.fds = append(h.fds, n)
+		}
+		if err := tm.ScheduleOnce(15*time.Millisecond, func() { atomic.AddInt32(done, 1); runtime.KeepAlive(s) }); err != nil {
+			return nil, err
+		}
+		h.complete = func() { time.Sleep(16 * time.Millisecond) }
+	}
+	return h, nil
+}
+
+func sendUDP(port int) {
+	p, err := syscall.Socket(syscall.AF_INET, syscall.SOCK_DGRAM|syscall.SOCK_CLOEXEC, 0)
+	if err != nil {
+		return
+	}
+	_ = syscall.Sendto(p, []byte("x"), 0, &syscall.SockaddrInet4{Addr: [4]byte{127, 0, 0, 1}, Port: port})
+	_ = syscall.Close(p)
+}
+
+func TestC13_OwnerStaysAliveOtherKinds(t *testing.T) {
+	rec := evid.For("C13")
+	vt.Check(t, 60, func(rt *rapid.T) {
+		ioc, err := sonic.NewIO()
+		if err != nil {
+			rt.Fatalf("INFRA: %v", err)
+		}
+		defer ioc.Close()
+		dir, _ := os.MkdirTemp("", "verif-fds-")
+		defer os.RemoveAll(dir)
+		kind := rapid.SampledFrom([]string{"packet", "peer", "listener", "adapter", "fifo", "timer"}).Draw(rt, "kind")
+		h, err := orphanOfKind(ioc, kind, dir)
+		if err != nil {
+			rt.Fatalf("INFRA: %s: %v", kind, err)
+		}
+		defer func() {
+			for _, fd := range h.fds {
+				_ = syscall.Close(fd) // nobody holds the object: release its descriptor by number
+			}
+			for _, f := range h.cleanup {
+				f()
+			}
+		}()
+		if atomic.LoadInt32(h.done) != 0 {
+			rt.Fatalf("INFRA: the %s operation was not deferred", kind)
+		}
+		polls := rapid.IntRange(0, 2).Draw(rt, "pollsBeforeGC")
+		for i := 0; i < polls; i++ {
+			_, _ = ioc.PollOne()
+		}
+		for i := 0; i < 3; i++ {
+			runtime.GC()
+			time.Sleep(time.Millisecond)
+		}
+		if f := atomic.LoadInt32(h.final); f != 0 {
+			rt.Fatalf("%s: the object was garbage collected while its operation was in flight (Pending()=%d): the callback's sentinel was finalized", kind, ioc.Pending())
+		}
+		h.complete()
+		for i := 0; i < 100 && atomic.LoadInt32(h.done) == 0; i++ {
+			_ = ioc.RunOneFor(2 * time.Millisecond)
+		}
+		if n := atomic.LoadInt32(h.done); n != 1 {
+			rt.Fatalf("%s: the completion was delivered %d times after every reference was dropped and the collector ran (Pending()=%d)", kind, n, ioc.Pending())
+		}
+		rec.Case(fmt.Sprintf("orphankind|%s|%d", kind, polls), true, []string{"gc-with-operation-in-flight:" + kind}, map[string]any{"kind": kind, "polls_before_gc": polls})
 	})
 }
